@@ -233,7 +233,7 @@ pub fn run(report: &mut Report) {
         evaluations += 1;
     }
     // every ordered pair of a representative subset (state leaking between statements, duplicates)
-    let step = if full { 7 } else { 37 };
+    let step = if full { 11 } else { 37 };
     let reps: Vec<&Gen> = gens.iter().step_by(step).collect();
     let mut pairs = 0u64;
     for a in &reps {
